@@ -7,20 +7,23 @@
           2 = the property's clauses fail on the implementation's own observations: after Stop (+ Wait) a goroutine of
               the node is still running, the context is not cancelled, a socket or the tun is still open, Stop or Wait
               took longer than the bound, the state is not Stopped, a second Stop changed something, a failed Start
-              did not release, Wait did not return. *)
+              did not release, Wait did not return; or the LEDGER of everything the node ever opened (every udp listener
+              handed to it by Main / its builder - with or without a reader - and every device queue) is not empty
+              after Stop + Wait: a listener or queue opened and never closed. *)
 From Coq Require Import List NArith Bool Arith.
 Import ListNotations.
 From NV Require Import lib.Corr model.Lifecycle.
 Open Scope N_scope.
 
 (* run state (1 ready, 2 started, 3 stopping, 4 stopped), context cancelled, sockets closed, tun closed, rebinds,
-   close calls that reached the tun, Wait returned (only asked for after a stop) *)
-Definition oobs := (N * bool * bool * bool * N * N * bool)%type.
+   close calls that reached the tun, Wait returned (only asked for after a stop), and the ledger: udp listeners ever
+   opened that are still open, device queues handed out, reader goroutines observed running (listenOut) *)
+Definition oobs := (N * bool * bool * bool * N * N * bool * N * N * N)%type.
 
 Inductive case :=
 | CCensus (nodes : list (cfg * N)) (obs : list (N * N)) (unknown : N)
 | CStop (c : cfg) (phase_before : N) (state_after : N) (ctx udp tun : bool) (leftover unknown : N) (stop_ms wait_ms bound_ms : N)
-        (second_stop_same : bool)
+        (second_stop_same : bool) (udp_opened udp_left : N)
 | COps (c : cfg) (steps : list (op * oobs)).
 
 Definition state_code (s : cstate) : N := match s with SReady => 1 | SStarted => 2 | SStopping => 3 | SStopped => 4 end.
@@ -30,11 +33,11 @@ Definition pair_eqb (a b : N * N) : bool := (fst a =? fst b) && (snd a =? snd b)
 Fixpoint ops_check (s : lst) (steps : list (op * oobs)) : list N :=
   match steps with
   | [] => []
-  | (o, (st, ctx, udp, tun, rb, tcloses, waited)) :: r =>
+  | (o, (st, ctx, udp, tun, rb, tcloses, waited, udp_left, queues, readers)) :: r =>
     let s' := step s o in
     let spec :=
       (* Stopped means released, and only then; the tun is closed at most once *)
-      implb (st =? 4) (ctx && udp && tun && waited) &&
+      implb (st =? 4) (ctx && udp && tun && waited && (udp_left =? 0)) &&
       implb (negb (st =? 4)) (negb udp && negb tun) &&
       (tcloses <=? 1) &&
       (* Stop always ends in Stopped when no other Stop is in flight; a failed Start ends in Stopped *)
@@ -46,7 +49,13 @@ Fixpoint ops_check (s : lst) (steps : list (op * oobs)) : list N :=
     let model :=
       (st =? state_code (l_state s')) && eqb ctx (has RCtx (l_closed s')) && eqb udp (has RUdp (l_closed s')) &&
       eqb tun (has RTun (l_closed s')) && (rb =? N.of_nat (l_rebinds s')) &&
-      eqb waited (match l_state s' with SStopped => released s' | _ => false end) in
+      eqb waited (match l_state s' with SStopped => released s' | _ => false end) &&
+      (udp_left =? N.of_nat (udp_open s')) &&
+      (* once started: the device was asked for queues and the readers are the clamped number *)
+      match l_state s' with
+      | SStarted => (readers =? N.of_nat (k_routines (l_cfg s'))) && (queues =? N.of_nat (k_routines (l_cfg s')))
+      | _ => true
+      end in
     flag 2 spec ++ flag 1 model ++ match flag 2 spec ++ flag 1 model with [] => ops_check s' r | _ => [] end
   end.
 
@@ -54,10 +63,10 @@ Definition check_case (c : case) : list N :=
   match c with
   | CCensus nodes obs unknown =>
     flag 1 (list_eqb pair_eqb (census nodes) obs && (unknown =? 0))
-  | CStop c ph st ctx udp tun leftover unknown stop_ms wait_ms bound sec =>
+  | CStop c ph st ctx udp tun leftover unknown stop_ms wait_ms bound sec uopened uleft =>
     let ops := (match ph with 1 => [OStart true] | 3 => [OStart false] | _ => [] end) ++ [OStop] in
     let s := run (ready c) ops in
-    flag 2 ((st =? 4) && ctx && udp && tun && (leftover =? 0) && (unknown =? 0) && (stop_ms <=? bound) && (wait_ms <=? bound) && sec) ++
-    flag 1 ((st =? state_code (l_state s)) && released s)
+    flag 2 ((st =? 4) && ctx && udp && tun && (leftover =? 0) && (unknown =? 0) && (stop_ms <=? bound) && (wait_ms <=? bound) && sec && (uleft =? 0)) ++
+    flag 1 ((st =? state_code (l_state s)) && released s && (uopened =? N.of_nat (k_configured c)) && (uleft =? N.of_nat (udp_open s)))
   | COps c steps => ops_check (ready c) steps
   end.
